@@ -145,6 +145,34 @@ func buildReplyTable(P *core.Program, fn *ssa.Function, msgParam int, depth int)
 				}
 			}
 		}
+		// … or the reply channel itself is the result variable: one channel per clause (the
+		// clauses that assign nothing leave it nil)
+		if mt == "" && an.IsNilConst(res[1]) {
+			if ph, isPhi := an.Unwrap(res[0]).(*ssa.Phi); isPhi {
+				allOK := true
+				type row struct{ t, shape string }
+				var rows []row
+				for i, e := range ph.Edges {
+					s, ok := replyShape(fn, e)
+					if !ok {
+						allOK = false
+						break
+					}
+					rows = append(rows, row{assertedType(fn, ph.Block().Preds[i], msgPath), s})
+				}
+				if allOK {
+					for _, rw := range rows {
+						if rw.t == "" {
+							defaultShapes = append(defaultShapes, rw.shape)
+							continue
+						}
+						handled[rw.t] = true
+						add(rw.t, rw.shape)
+					}
+					continue
+				}
+			}
+		}
 		var sub replyTable
 		shape := ""
 		// delegation
@@ -228,8 +256,8 @@ func runReplyTab(c *core.Ctx) {
 		"ClientAuthMsg":  {"nil"},
 	}
 	sqliteWant := map[string][]string{
-		"ClientEventMsg": {"OK", "err"}, // err: the session context ended while queueing
-		"ClientReqMsg":   {"EOSE", "Event*,EOSE"},
+		"ClientEventMsg": {"OK", "?err"}, // err: the session context ended while queueing
+		"ClientReqMsg":   {"?EOSE", "Event*,EOSE"}, // a bare EOSE (query failed) is a special case of Event*,EOSE
 		"ClientCountMsg": {"COUNT"},
 		"ClientCloseMsg": {"nil"},
 		"ClientAuthMsg":  {"nil"},
@@ -258,10 +286,27 @@ func runReplyTab(c *core.Ctx) {
 		}
 		for _, t := range clientTypes {
 			got := keysOf(tab[t])
-			want := append([]string(nil), sp.want[t]...)
+			// "?shape": allowed but not required
+			var want []string
+			allowed, missing := map[string]bool{}, 0
+			for _, w := range sp.want[t] {
+				opt := strings.HasPrefix(w, "?")
+				w = strings.TrimPrefix(w, "?")
+				allowed[w] = true
+				want = append(want, w)
+				if !opt && !tab[t][w] {
+					missing++
+				}
+			}
 			sort.Strings(want)
+			extra := 0
+			for _, g := range got {
+				if !allowed[g] {
+					extra++
+				}
+			}
 			c.CountSites(1)
-			c.Check(strings.Join(got, " | ") == strings.Join(want, " | "), nil, fname(c, sp.fn), "clause["+t+"]", P.Pos(sp.fn.Pos()),
+			c.Check(missing == 0 && extra == 0 && len(got) > 0, nil, fname(c, sp.fn), "clause["+t+"]", P.Pos(sp.fn.Pos()),
 				t+" → "+strings.Join(got, " | "), fmt.Sprintf("%s is answered with {%s}, want {%s}", t, strings.Join(got, " | "), strings.Join(want, " | ")))
 		}
 	}
